@@ -124,7 +124,8 @@ func genReqPath(t *rapid.T, doc string) string {
 	case 5:
 		return doc + "/."
 	case 6:
-		return doc + "/./"
+		// what http.StripPrefix leaves of "/v1docs" behind the prefix "/v1": a path without its slash ("" for "/") (r10)
+		return strings.TrimPrefix(doc, "/")
 	case 7:
 		return dir + "x/../" + base
 	case 8:
